@@ -204,6 +204,11 @@ func run(r *report.Run, shard, nshards int, replayFile string) {
 		}
 	}
 	e := setup(r, sl)
+	// shard late: all workers of a distribution search identically down to depth-2 (cheap: the last two levels hold
+	// ~95% of the transitions), which keeps the overlap between the workers' private visited sets small
+	if e.shardDepth = sl.Depth - 2; e.shardDepth < 1 {
+		e.shardDepth = 1
+	}
 	if sd, _ := strconv.Atoi(os.Getenv("C02_SHARDDEPTH")); sd > 0 {
 		e.shardDepth = sd
 	}
